@@ -243,8 +243,9 @@ impl IppValue {
             IppValue::Array(ref list) => {
                 for (i, item) in list.iter().enumerate() {
                     buffer.put(item.to_bytes());
-                    if i < list.len() - 1 {
-                        buffer.put_u8(self.to_tag());
+                    // each additional value carries its own tag and an empty name
+                    if let Some(next) = list.get(i + 1) {
+                        buffer.put_u8(next.to_tag());
                         buffer.put_u16(0);
                     }
                 }
